@@ -126,6 +126,11 @@ let icmp_msg_err src dst unreach inner_tcp sport inner_ok data : icmp_msg =
     im_inner_tcp = (if inner_ok && inner_tcp then Some (zi sport) else None);
     im_bytes = zl (hdr @ data) }
 
+(* ck=<ipv4><udp><icmpv4><icmpv6>, each B(oth) T(x) R(x) N(one): a protocol whose checksum the
+   device is said to verify (T or N) is accepted with a bad checksum *)
+let ck_caps = ref "BBBB"
+let rx_verified (i : int) : bool = let c = (!ck_caps).[i] in c = 'B' || c = 'R'
+
 let event_of (kinds : int array) (line : string) : dg_event =
   let w = words line in
   let k s = nat_of_int (int_of_string s) in
@@ -149,13 +154,16 @@ let event_of (kinds : int array) (line : string) : dg_event =
   | ["peek"; s] -> EvSock (k s, OpPeek)
   | ["peeks"; s; c] -> EvSock (k s, OpPeekSlice (zs c))
   | ["inject"; "udp"; src; sp; dst; dp; spec; st] ->
-      EvInject (FI_Udp (addr_of src, zs sp, addr_of dst, zs dp, zl (payload_of 0 spec), zi (if st = "ok" then 0 else if st = "trunc" then 1 else 2)))
+      EvInject (FI_Udp (addr_of src, zs sp, addr_of dst, zs dp, zl (payload_of 0 spec),
+                        zi (if st = "ok" then 0 else if st = "trunc" then 1 else if rx_verified 1 then 2 else 0)))
   | ["inject"; "echo"; src; dst; kind; ident; seq; spec; st] ->
       EvInject (FI_Icmp (icmp_msg_echo (addr_of src) (addr_of dst) (kind = "req") (int_of_string ident)
-                           (int_of_string seq) (payload_of 0 spec), st = "ok"))
+                           (int_of_string seq) (payload_of 0 spec),
+                         st = "ok" || not (rx_verified (if (addr_of src).a_ver = zi 4 then 2 else 3))))
   | ["inject"; "err"; src; dst; kind; inner; sport; ist; spec; st] ->
       EvInject (FI_Icmp (icmp_msg_err (addr_of src) (addr_of dst) (kind = "unreach") (inner = "tcp")
-                           (int_of_string sport) (ist = "ok") (payload_of 0 spec), st = "ok"))
+                           (int_of_string sport) (ist = "ok" || (inner = "udp" && not (rx_verified 1))) (payload_of 0 spec),
+                         st = "ok" || not (rx_verified (if (addr_of src).a_ver = zi 4 then 2 else 3))))
   | ["inject"; "other"; ver; proto; src; dst; hop; spec] ->
       let d = payload_of 0 spec in
       EvInject (FI_Other ({ ir_ver = zs ver; ir_src = addr_of src; ir_dst = addr_of dst; ir_proto = zs proto;
@@ -163,6 +171,7 @@ let event_of (kinds : int array) (line : string) : dg_event =
   | ["inject"; "neigh"; a] -> EvInject (FI_Neigh (addr_of a))
   | ["budget"; b] -> EvBudget (if b = "-" then None else Some (zs b))
   | ["poll"; t] -> EvPoll (zs t)
+  | ["remove"; s] -> EvRemove (k s)
   | _ -> failwith ("bad event " ^ line)
 
 let b01 b = if b then 1 else 0
@@ -173,6 +182,7 @@ let () =
     let n = int_of_string (cfg_get cfg "n" "0") in
     let socks = List.init n (fun i -> sock_of_spec (cfg_get cfg (Printf.sprintf "s%d" i) "")) in
     let kinds = Array.of_list (List.map (fun s -> iz (sock_kind s)) socks) in
+    ck_caps := cfg_get cfg "ck" "BBBB";
     let ev = std_env (zs (cfg_get cfg "fam" "4")) in
     let st = ref (if_new (cfg_get cfg "med" "ip" = "eth") (zs (cfg_get cfg "mtu" "1500"))) in
     let ss = ref (List.map (fun s -> (meta_new, s)) socks) in
